@@ -383,10 +383,10 @@ func c20BodyFailure(c *an.Ctx) {
 			}
 			w := an.FindPath(an.PathQuery{Fn: fn, StartBlock: start, Target: an.IsReturn, Stop: func(x ssa.Instruction) bool { return an.IsCallTo(x, gen) }})
 			c.Check(w == nil, "R4", key+" sets the error variables", in.Pos(), "every failure path calls "+shortFn(s.gen), "a failure path returns without setting the body error variables: the body would be silently treated as inspected")
-			w2 := an.FindPath(an.PathQuery{Fn: fn, StartBlock: start, Target: an.IsReturn, Stop: func(x ssa.Instruction) bool { return an.IsCallTo(x, evalFn) }})
+			w2 := an.FindPath(an.PathQuery{Fn: fn, StartBlock: start, Target: an.IsReturn, Stop: func(x ssa.Instruction) bool { return callsThrough(x, evalFn) }})
 			c.Check(w2 == nil, "R4", key+" still evaluates the body phase", in.Pos(), "every failure path calls Rules.Eval", "a failure path returns without evaluating the body phase: rules testing the error variable never run")
 			// order: error variables before Eval
-			w3 := an.FindPath(an.PathQuery{Fn: fn, StartBlock: start, Stop: func(x ssa.Instruction) bool { return an.IsCallTo(x, gen) }, Target: func(x ssa.Instruction) bool { return an.IsCallTo(x, evalFn) }})
+			w3 := an.FindPath(an.PathQuery{Fn: fn, StartBlock: start, Stop: func(x ssa.Instruction) bool { return an.IsCallTo(x, gen) }, Target: func(x ssa.Instruction) bool { return callsThrough(x, evalFn) }})
 			c.Check(w3 == nil, "R4", key+": variables set before the phase runs", in.Pos(), "generate*BodyError precedes Eval", "the body phase can run before the error variables are set")
 			// request side: once the failure is recorded in the error variables and the phase was evaluated, the outcome
 			// is the interruption (if a rule reacted to REQBODY_ERROR), not an API error: connectors test the error first
@@ -398,8 +398,10 @@ func c20BodyFailure(c *an.Ctx) {
 					if !ok || len(r.Results) != 2 || !(r.Block() == start || start.Dominates(r.Block())) {
 						return
 					}
-					if cst, isC := r.Results[1].(*ssa.Const); !isC || cst.Value != nil {
-						bad = tempName.ReplaceAllString(an.Expr(r.Results[1]), "")
+					for _, lf := range leavesOf(r.Results[1], nil, 0) {
+						if cst, isC := lf.V.(*ssa.Const); !isC || cst.Value != nil {
+							bad = tempName.ReplaceAllString(an.Expr(lf.V), "")
+						}
 					}
 				})
 				c.Check(bad == "", "R4", key+" is reported through the error variables, not as an API error", in.Pos(), "failure paths return (interruption, nil)",
